@@ -252,9 +252,116 @@ Theorem C20_code_shouldUpdateAlertStateToFiring_is_model : forall (window interv
 Proof. exact gen_shouldUpdateAlertStateToFiring_is_model. Qed.
 Print Assumptions C20_code_shouldUpdateAlertStateToFiring_is_model.
 
-Theorem C20_code_shouldSendNotification_is_model : forall (cur : astate) (nf : notif) (silence now : Z),
+Theorem C20_code_shouldSendNotification_is_model : forall (cur : astate) (nf : notif) (silence now : Z) (alertID : list Z),
   gen_shouldSendNotification (zcode (n_last_state nf))
-      (gate_over (n_cooldown nf) (n_last_sent nf) now) (gate_over silence (n_last_sent nf) now) (zcode cur)
+      (gate_over (n_cooldown nf) (n_last_sent nf) now) (gate_over silence (n_last_sent nf) now) alertID (zcode cur)
   = should_send cur nf silence now.
 Proof. exact gen_shouldSendNotification_is_model. Qed.
 Print Assumptions C20_code_shouldSendNotification_is_model.
+
+(* ==== dashboards and folders as a keyed store WITH A TREE (model SigM.DashTree: folder_structure.json =
+   tree id -> (name, kind, parent); details/<id>.json = the folder info {id, name, path, breadcrumbs}
+   stored with each dashboard; getDashboard + refreshFolderMetadata, listItems, getFolderContents).
+   What a read reports about the place of a dashboard depends on the dashboard's folder AND on every
+   ancestor of it.  [tree_of_writes ops] is the tree the accepted writes determine (reads, refreshes of
+   details files and restarts at any position never touch it); [info_of tr i] is the folder info of
+   dashboard i that tree [tr] determines. ==== *)
+From SigM Require Import DashTree.
+From SigP Require Import DashTreeFreshProofs DashTreeProofs.
+
+Theorem C20_dash_tree_is_function_of_writes : forall ops s,
+  d_tree (d_run ops s) = fold_left tree_apply ops (d_tree s).
+Proof. exact dt_tree_of_writes. Qed.
+Print Assumptions C20_dash_tree_is_function_of_writes.
+
+(* full strength, every history (create / rename / move / delete of folders and dashboards at any
+   depth, reads and restarts anywhere): the path a read of a dashboard returns is the path of the tree *)
+Theorem C20_dash_tree_read_path_current : forall ops i fi cur,
+  fst (get_dash (d_tree (d_run ops d_init)) (d_det (d_run ops d_init)) i) = Some fi ->
+  info_of (tree_of_writes ops) i = Some cur ->
+  fi_path fi = fi_path cur.
+Proof. exact dt_get_path_current. Qed.
+Print Assumptions C20_dash_tree_read_path_current.
+
+Theorem C20_dash_tree_list_current : forall ops,
+  snd (d_step (d_run ops d_init) ListAll) = DList (list_of (tree_of_writes ops)).
+Proof. exact dt_list_current. Qed.
+Print Assumptions C20_dash_tree_list_current.
+
+Theorem C20_dash_tree_contents_current : forall ops f,
+  snd (d_step (d_run ops d_init) (Contents f)) = contents_of (tree_of_writes ops) f.
+Proof. exact dt_contents_current. Qed.
+Print Assumptions C20_dash_tree_contents_current.
+
+(* FULL STATEMENT (fails, see the two _refuted theorems): for every history, a read of dashboard i returns
+     fi = cur, i.e. also the folder NAME and the BREADCRUMBS (ids and names) the tree determines.
+   refreshFolderMetadata compares path STRINGS only.  Guarded variants: *)
+
+(* (1) exact guard on the state: the stored path string differs from the current one, or nothing differs *)
+Theorem C20_dash_tree_read_current_guarded : forall s i fi cur,
+  detects s i = true ->
+  fst (get_dash (d_tree s) (d_det s) i) = Some fi ->
+  info_of (d_tree s) i = Some cur ->
+  fi = cur.
+Proof. exact dt_get_info_current_guarded. Qed.
+Print Assumptions C20_dash_tree_read_current_guarded.
+
+(* (2) guard on the history, evaluated along the run (hist_ok): operations get ids of the right kind,
+   the tree stays well formed, and every folder name is introduced ONCE in the history and has no '/'.
+   Then every read, after any sequence of renames and moves of the folder and of its ancestors, returns
+   exactly what the tree determines.  The harness stream "tree" satisfies the guard (checked in Coq for
+   every real history). *)
+Theorem C20_dash_tree_read_current_fresh_names : forall ops i fi cur,
+  hist_ok [] [] ops = true ->
+  fst (get_dash (d_tree (d_run ops d_init)) (d_det (d_run ops d_init)) i) = Some fi ->
+  info_of (tree_of_writes ops) i = Some cur ->
+  fi = cur.
+Proof. exact dt_read_current_fresh_names. Qed.
+Print Assumptions C20_dash_tree_read_current_fresh_names.
+
+Theorem C20_dash_tree_hist_ok_satisfiable :
+  hist_ok [] [] wit_ok = true /\
+  n_get 3 (d_det (d_run wit_ok d_init)) <> info_of (tree_of_writes wit_ok) 3 /\
+  fst (get_dash (d_tree (d_run wit_ok d_init)) (d_det (d_run wit_ok d_init)) 3) = info_of (tree_of_writes wit_ok) 3.
+Proof. exact dt_hist_ok_satisfiable. Qed.
+Print Assumptions C20_dash_tree_hist_ok_satisfiable.
+
+(* (3) any history: after a save (or the creation) of the dashboard, with any reads / listings /
+   restarts after it, the read returns exactly what the tree determines *)
+Theorem C20_dash_tree_read_current_after_save : forall ops0 i nm p reads fi cur,
+  forallb is_read reads = true ->
+  let s := d_run (ops0 ++ UpdDash i nm p :: reads) d_init in
+  fst (get_dash (d_tree s) (d_det s) i) = Some fi ->
+  info_of (d_tree s) i = Some cur ->
+  fi = cur.
+Proof. exact dt_get_after_save_current. Qed.
+Print Assumptions C20_dash_tree_read_current_after_save.
+
+Theorem C20_dash_tree_read_current_after_create : forall ops0 i nm p reads fi cur,
+  forallb is_read reads = true ->
+  let s := d_run (ops0 ++ MkDash i nm p :: reads) d_init in
+  fst (get_dash (d_tree s) (d_det s) i) = Some fi ->
+  info_of (d_tree s) i = Some cur ->
+  fi = cur.
+Proof. exact dt_get_after_create_current. Qed.
+Print Assumptions C20_dash_tree_read_current_after_create.
+
+(* refuted: folder x > folder p > dashboard D; x renamed y; a NEW folder x; p moved into it: same path
+   string "x/p", the read still returns the breadcrumb of the OLD folder (names without '/') *)
+Theorem C20_dash_tree_read_breadcrumbs_refuted :
+  exists ops i fi cur,
+    forallb (fun o => forallb slash_free (names_of_op o)) ops = true /\
+    fst (get_dash (d_tree (d_run ops d_init)) (d_det (d_run ops d_init)) i) = Some fi /\
+    info_of (tree_of_writes ops) i = Some cur /\
+    fi_path fi = fi_path cur /\ fi_crumbs fi <> fi_crumbs cur.
+Proof. exact dt_get_crumbs_refuted. Qed.
+Print Assumptions C20_dash_tree_read_breadcrumbs_refuted.
+
+(* refuted: X > "a/b" > D; X renamed "X/a", "a/b" renamed "b": the read still says folder name "a/b" *)
+Theorem C20_dash_tree_read_folder_name_refuted :
+  exists ops i fi cur,
+    fst (get_dash (d_tree (d_run ops d_init)) (d_det (d_run ops d_init)) i) = Some fi /\
+    info_of (tree_of_writes ops) i = Some cur /\
+    fi_path fi = fi_path cur /\ fi_name fi <> fi_name cur.
+Proof. exact dt_get_name_refuted. Qed.
+Print Assumptions C20_dash_tree_read_folder_name_refuted.
